@@ -231,6 +231,7 @@ class Functor(pg_object.Object, utils.Functor):
     self._non_default_args = non_default_args
     self._default_args = default_args
     self._specified_args = set(bound_kwargs)
+    self._unbinding_args = set()
     self._override_args = override_args
     self._ignore_extra_args = ignore_extra_args
 
@@ -293,10 +294,22 @@ class Functor(pg_object.Object, utils.Functor):
         self._default_args.discard(arg_name)
         self._non_default_args.add(arg_name)
 
-      if update.new_value == pg_typing.MISSING_VALUE:
+      if (update.new_value == pg_typing.MISSING_VALUE
+          or arg_name in self._unbinding_args):
+        # The argument was unbound (it shows its default again, if it has one).
         self._specified_args.discard(arg_name)
       else:
         self._specified_args.add(arg_name)
+    self._unbinding_args.clear()
+
+  def _note_binding(self, name: str, value: Any) -> None:
+    """Records that argument `name` is bound to `value` or (MISSING) unbound."""
+    if pg_typing.MISSING_VALUE != value:
+      self._specified_args.add(name)
+      self._unbinding_args.discard(name)
+    else:
+      self._specified_args.discard(name)
+      self._unbinding_args.add(name)
 
   def _sym_rebind(
       self, path_value_pairs: Dict[utils.KeyPath, Any]
@@ -306,24 +319,23 @@ class Functor(pg_object.Object, utils.Functor):
     # An argument that is rebound to the value it already shows (e.g. its
     # filled-in default) produces no field update, yet the user specified it.
     for path, value in path_value_pairs.items():
-      if len(path) == 1 and pg_typing.MISSING_VALUE != value:
-        self._specified_args.add(str(path))
+      if len(path) == 1:
+        self._note_binding(str(path), value)
     return updates
 
   def _set_item_without_permission_check(
       self, key: str, value: Any) -> Optional[base.FieldUpdate]:
     """Binds an argument through a rebind of an ancestor (deep key path)."""
     update = super()._set_item_without_permission_check(key, value)
-    if pg_typing.MISSING_VALUE != value:
-      self._specified_args.add(key)
+    self._note_binding(key, value)
     return update
 
   def __setattr__(self, name: str, value: Any) -> None:
     """Binds an argument by attribute assignment."""
     super().__setattr__(name, value)
-    if (not name.startswith('_') and pg_typing.MISSING_VALUE != value
+    if (not name.startswith('_')
         and self.__class__.__schema__.get_field(name)):
-      self._specified_args.add(name)
+      self._note_binding(name, value)
 
   def __delattr__(self, name: str) -> None:
     """Discard a previously bound argument and reset to its default value."""
